@@ -30,7 +30,7 @@ def main(tier):
         rule='pool U = every units definition over references {metre, second, gram, litre, volt, dimensionless, user base units apple, pear, earlier members}, '
              'prefix {none, milli, kilo, 3, -2}, exponent {1, 2, -1, 0.5, 0}, multiplier {1, 1000, 0.25}: all 600 one-child definitions; all ordered pairs of a child menu '
              '(two children, both orders); nesting depth 1 and 2 over a fixed list of inner definitions; each as an imported units (Importer::addModel) and reached through an '
-             'imported intermediate; every built-in name as a childless object; parentless definitions over built-in references (%d members, %d reduction classes, kinds %s). '
+             'imported intermediate; one definition reaching the same imported units twice (imp*imp, two imports of it, import x local / imported intermediate using it, both orders); every built-in name as a childless object; parentless definitions over built-in references (%d members, %d reduction classes, kinds %s). '
              'Judged: ALL %d ordered pairs of U (one evaluation = one row of %d pairs), ALL %d triples of a %d-member sub-pool holding every reduction class, every null/undefined/'
              'parentless argument against the sub-pool, every order/indirection twin, one validated two-component model per ordered pair of the sub-pool, and one analysed model with '
              'generated C executed per ordered pair of the sub-pool with equal reduction; '
